@@ -200,15 +200,15 @@ Fixpoint flatten (v : tval) : wval :=
   | TFix64 b => WFix64 b
   | TFix32 b => WFix32 b
   | TBytes b => WLen b
-  | TMsg fs => WLen (concat (map (fun kv : tfield => let '(k, v') := kv in ser_field (k, flatten v')) fs))
+  | TMsg fs => WLen (concat (map (fun kv : tfield => ser_field (fst kv, flatten (snd kv))) fs))
   end.
 
-Definition flatten_field (kv : tfield) : field := let '(k, v) := kv in (k, flatten v).
+Definition flatten_field (kv : tfield) : field := (fst kv, flatten (snd kv)).
 Definition ser_tree (fs : list tfield) : bytes := ser_fields (map flatten_field fs).
 
 Fixpoint tdepth (v : tval) : nat :=
   match v with
-  | TMsg fs => S (list_max (map (fun kv : tfield => let '(_, v') := kv in tdepth v') fs))
+  | TMsg fs => S (list_max (map (fun kv : tfield => tdepth (snd kv)) fs))
   | _ => O
   end.
 Definition fdepth (fs : list tfield) : nat := S (list_max (map (fun kv : tfield => tdepth (snd kv)) fs)).
@@ -235,12 +235,11 @@ Fixpoint tval_ok (sch : schema) (m fno : N) (v : tval) : bool :=
   | TMsg fs =>
       match msg_of sch m fno with
       | Some m' =>
-          (N.of_nat (length (concat (map (fun kv : tfield => let '(k, v') := kv in ser_field (k, flatten v')) fs))) <? two64)
-          && forallb (fun kv : tfield => let '(k, v') := kv in fno_ok k && tval_ok sch m' k v') fs
+          (N.of_nat (length (concat (map (fun kv : tfield => ser_field (fst kv, flatten (snd kv))) fs))) <? two64)
+          && forallb (fun kv : tfield => fno_ok (fst kv) && tval_ok sch m' (fst kv) (snd kv)) fs
       | None => false
       end
   end.
 Definition tfields_ok (sch : schema) (m : N) (fs : list tfield) : bool :=
   forallb (fun kv : tfield => fno_ok (fst kv) && tval_ok sch m (fst kv) (snd kv)) fs.
 
-(* ---------- a whole claim / support on the wire: envelope + message ---------- *)
